@@ -97,17 +97,17 @@ func (c *ConfigStorage) SetConfig(cfg *config.Config) (err error) {
 		}
 	}
 
-	f, err := c.dir.ConfigWriter()
+	b, err := cfg.Marshal()
+	if err != nil {
+		return err
+	}
+
+	f, err := c.dir.ConfigReplacer()
 	if err != nil {
 		return err
 	}
 
 	defer ioutil.CheckClose(f, &err)
-
-	b, err := cfg.Marshal()
-	if err != nil {
-		return err
-	}
 
 	_, err = f.Write(b)
 	return err
